@@ -10,6 +10,7 @@ import (
 	"math/big"
 	"net/url"
 	"strconv"
+	"strings"
 	"testing"
 
 	"github.com/google/certificate-transparency-go/trillian/ctfe"
@@ -35,6 +36,7 @@ type ArithCase struct {
 	TreeSize    uint64 // what the backend claims
 	ServeLeaves int    // how many leaves the backend returns at most (short read), >= 1
 	Metrics     bool   // process option --getentries_metrics
+	QStyle      int    // spelling of the query string: 0 canonical, 1 every value octet percent-encoded with unknown parameters around, 2 reverse order between empty pairs
 }
 
 var maxChoices = []int64{1, 2, 3, 7, 256, 1000, math.MaxInt32, 1 << 62, math.MaxInt64}
@@ -127,6 +129,9 @@ func genArith(t *rapid.T) ArithCase {
 	}
 	c.ServeLeaves = rapid.IntRange(1, 4).Draw(t, "serve")
 	c.Metrics = rapid.IntRange(0, 3).Draw(t, "metrics") == 0
+	if rapid.IntRange(0, 3).Draw(t, "respell") == 0 {
+		c.QStyle = rapid.IntRange(1, 2).Draw(t, "qstyle")
+	}
 	return c
 }
 
@@ -222,7 +227,32 @@ func checkArith(t *testing.T, c ArithCase) (v harness.Verdict) {
 	if c.HasEnd {
 		q.Set("end", c.End)
 	}
-	rsp := inst.Get("/ct/v1/get-entries", q.Encode())
+	raw := q.Encode()
+	switch c.QStyle {
+	case 1:
+		var parts []string
+		for _, k := range []string{"start", "end"} {
+			if vs, ok := q[k]; ok {
+				enc := ""
+				for _, b := range []byte(vs[0]) {
+					enc += fmt.Sprintf("%%%02x", b)
+				}
+				parts = append(parts, k+"="+enc)
+			}
+		}
+		raw = "starts=7&" + strings.Join(parts, "&") + "&ends=9&x"
+		v.Class("query-percent-encoded")
+	case 2:
+		var parts []string
+		for _, k := range []string{"end", "start"} {
+			if vs, ok := q[k]; ok {
+				parts = append(parts, k+"="+url.QueryEscape(vs[0]))
+			}
+		}
+		raw = "&" + strings.Join(parts, "&&") + "&"
+		v.Class("query-reordered")
+	}
+	rsp := inst.Get("/ct/v1/get-entries", raw)
 	calls := be.CallsOf("GetLeavesByRange")
 	other := be.NumCalls() - len(calls)
 
